@@ -1,7 +1,7 @@
 (** C05 — Ack lifecycle: one ack per delivered packet, processed at most once.
     Only statements; proofs in Proofs/PacketC05.v and Proofs/PacketC04.v. *)
 From Teleport Require Import Base.Bytes Base.Outcome Base.AList Model.Packet Model.PacketKeys
-     Proofs.Packet Proofs.PacketC01 Proofs.PacketC02 Proofs.PacketC05 Proofs.PacketC04 Proofs.PacketKeys Proofs.PacketExamples.
+     Proofs.Packet Proofs.PacketC01 Proofs.PacketC02 Proofs.PacketC05 Proofs.PacketC04 Proofs.PacketTx Proofs.PacketCb Proofs.PacketKeys Proofs.PacketExamples.
 Local Open Scope N_scope.
 
 (** Every accepted receive of a packet addressed to this chain writes, in the same step, exactly ONE acknowledgement:
@@ -69,6 +69,56 @@ Theorem C05_ack_effects_at_most_once : forall P, real_keys P -> (forall x, sha25
   (cnt (ackev j d k) (log (st_app (run P s ops))) <= 1)%nat.
 Proof. intros P K. exact (ack_effects_at_most_once P (real_keys_ok P K)). Qed.
 Print Assumptions C05_ack_effects_at_most_once.
+
+(** The WHOLE state after an accepted receive addressed to this chain ("and nothing else changes"): receipt and
+    acknowledgement hash are written on the parent state in every case; the callback's effects (including the sends
+    its PacketSent logs cause) are kept exactly when it returned without error and reported result code 0. *)
+Theorem C05_recv_step_exact : forall P env s m cb s',
+  exec P env s (ARecv m cb) = Ok s' ->
+  let p := fst (decode P (rm_packet m)) in
+  p_dst p = st_name s ->
+  let t := triple_of p in
+  let s1 := set_kv (rkey P t) receipt_value s in
+  exists h,
+    match cb_persists P s1 p cb with
+    | Some s2 => s' = add_log (EvAckWritten t h) (set_kv (akey P t) h s2)
+    | None => s' = recv_min P s t h
+    end.
+Proof. exact recv_step_exact. Qed.
+Print Assumptions C05_recv_step_exact.
+
+(** An accepted acknowledgement of a packet sent from this chain records the outcome, pays the relayer fee and runs
+    the sender's callback EXACTLY once each in that step (j = 0 setAckStatus, 1 sendPacketFeeToRelayer,
+    2 OnAcknowledgePacket), and the recorded status is 1 for acknowledgement code 0 and 2 otherwise.  Together with
+    C05_ack_effects_at_most_once: exactly once per packet over the whole history. *)
+Theorem C05_ack_step_effects : forall P, real_keys P -> (forall x, sha256 P x <> []) ->
+  forall env s m cb1 cb2 cb3 s',
+  exec P env s (AAck m cb1 cb2 cb3) = Ok s' ->
+  let p := fst (decode P (am_packet m)) in
+  p_src p = st_name s ->
+  forall j, (j < 3)%nat ->
+    cnt (ackev j (p_dst p) (p_seq p)) (log (st_app s')) = S (cnt (ackev j (p_dst p) (p_seq p)) (log (st_app s))) /\
+    (exists a, decode_ack P (am_ack m) = Some a /\
+               cnt (fun e => match e with
+                             | EvAckStatus d q st => bytes_eqb d (p_dst p) && (q =? p_seq p) && (st =? (if a_code a =? 0 then 1 else 2))
+                             | _ => false end) (log (st_app s'))
+               = S (cnt (fun e => match e with
+                             | EvAckStatus d q st => bytes_eqb d (p_dst p) && (q =? p_seq p) && (st =? (if a_code a =? 0 then 1 else 2))
+                             | _ => false end) (log (st_app s)))).
+Proof. intros P K Sh. exact (ack_step_effects P Sh). Qed.
+Print Assumptions C05_ack_step_effects.
+
+(** Every state reachable from a fresh chain (empty packet families, contract counters never set, empty ghost log, valid
+    names, no self-named client) by ANY history without a self-named client registration satisfies all four
+    invariants at once: [inv4] (counters agree, own commitments below the counter), [inv5] (acks have receipts; foreign
+    commitments have a receipt and no ack), [log_ok] (each receive effect / written ack logged at most once, and only
+    with its receipt / ack in the store), [acklog_ok] (each ack effect at most once, and only for acknowledged
+    packets).  So the hypotheses [inv4] / [inv5] / [log_ok] / [acklog_ok] of the theorems above are met by every
+    reachable state, not only by the example states. *)
+Theorem C05_reachable_invariants : forall P, real_keys P -> (forall x, sha256 P x <> []) -> forall ops s,
+  fresh P s -> ops_noself (st_name s) ops -> all_inv P (run P s ops).
+Proof. intros P K Sh. exact (reachable_all_inv P (real_keys_ok P K) Sh). Qed.
+Print Assumptions C05_reachable_invariants.
 
 (** Non-vacuity: chain A sends (A,B,1), the acknowledgement is accepted once (commitment removed, three effects
     logged once), the duplicate is rejected; chain B's receive writes exactly one ack. *)
